@@ -373,6 +373,17 @@ fn replacements(c: &Ctx, t: &Trace, a: &Atom, rng: &mut R) -> Vec<(&'static str,
             if let Some(b) = alt_valid(a.kind, orig, rng) {
                 v.push(("random", b));
             }
+            // the same residue in a non-canonical encoding: value + q as a 256-bit little-endian integer
+            let mut b = orig.to_vec();
+            let mut carry = 0u16;
+            for i in 0..32 {
+                let x = b[i] as u16 + crate::wire::Q_LE[i] as u16 + carry;
+                b[i] = x as u8;
+                carry = x >> 8;
+            }
+            if carry == 0 {
+                v.push(("+q(non-canonical)", b));
+            }
         }
         _ => {}
     }
@@ -615,6 +626,19 @@ fn proof_case<const N: usize>(c: &mut Ctx, ty: Ty, inst: usize) {
                 tr.bytes = honest.with_replaced(a, &rbytes);
                 match lib_verify(ty, &tr.bytes, &params, ch) {
                     Err(_) => c.count(&format!("replacement_not_decodable[{}:{}]", acl, rname), 1),
+                    Ok(lib) if rname == "+q(non-canonical)" => {
+                        // a changed field of an accepted proof that still decodes: it must at least be rejected
+                        c.eval();
+                        c.distinct(&key(&label));
+                        if lib {
+                            c.violation(
+                                &format!("C11 verifier-accepts-changed-field type={} N={} perturbation={}", ty.name(), N, class),
+                                json!({"atom": a.path, "original": hex(honest.atom_bytes(a)), "replacement": hex(&rbytes), "base": base_detail.clone()}),
+                            );
+                        } else {
+                            c.count("non_canonical_scalar_decoded_but_rejected", 1);
+                        }
+                    }
                     Ok(lib) => match oracle(ty, &tr, &pa, &cval) {
                         Ok(v) => {
                             c.distinct(&key(&label));
